@@ -103,6 +103,8 @@ def metric_specs(name):
         ("callable-vector", lambda s, k=1: np.array([s.nb_hard_pos * k, s.nb_hard_neg, float(s.tpr(2.0))]), {"k": 3}),
         ("callable-matrix", lambda s: np.asarray(s.cm(thr).matrix, dtype=float), {}),
         ("callable-reused-buffer", _ReusedBuffer(thr), {}),
+        # a metric living at a tiny scale (rates of rare events): absolute tolerances inside the CI code would bite
+        ("callable-tiny-scale", lambda s: np.array([s.fpr(2.0), s.fnr(2.0), float(s.nb_hard_pos)], dtype=float) * 2.0 ** -30, {}),
     ]
     if name == "scores-nan-menu":
         specs = [sp for sp in specs if sp[0] in ("tpr@scalar", "fnr@array", "topr@2d")] + [
@@ -248,7 +250,8 @@ def run(item, ctx, tier, seed):
                         else:
                             for z, a_ in enumerate(alphas.tolist()):
                                 wz, _ = ref_ci(want, est, a_, "quantile")
-                                if not np.allclose(civ[..., z, :], wz, rtol=0, atol=1e-9, equal_nan=True):
+                                sc_ = float(np.nanmax(np.abs(want))) if np.isfinite(want).any() and float(np.nanmax(np.abs(want))) > 0 else 1.0
+                                if not np.allclose(civ[..., z, :], wz, rtol=0, atol=1e-9 * sc_, equal_nan=True):
                                     ctx.fail("ci-equals-formula-on-replicates", dict(case, alpha=a_, vector_alpha=True),
                                              observed=civ[..., z, :], expected=wz)
                                     break
@@ -277,7 +280,7 @@ def run(item, ctx, tier, seed):
                         if ci.shape != wref.shape:
                             ctx.fail("ci-shape", c3, observed=list(ci.shape), expected=list(wref.shape))
                             continue
-                        rng_ = max(1.0, float(np.nanmax(np.abs(want))) if np.isfinite(want).any() else 1.0)
+                        rng_ = float(np.nanmax(np.abs(want))) if np.isfinite(want).any() and float(np.nanmax(np.abs(want))) > 0 else 1.0
                         good = np.isclose(ci, wref, rtol=0, atol=1e-9 * rng_, equal_nan=True) | skip[..., None]
                         if not good.all():
                             ctx.fail("ci-equals-formula-on-replicates", c3, observed=ci, expected=wref)
@@ -357,9 +360,43 @@ def _run_builtin(item, ctx, b):
     return None
 
 
+def _large_group_source():
+    from score_analysis import GroupScores
+
+    r = np.random.default_rng(99)
+    pos = np.round(r.normal(1.0, 1.0, 230), 3)
+    neg = np.round(r.normal(0.0, 1.0, 215), 3)
+    return GroupScores(pos=pos, neg=neg, pos_groups=["a"] * 110 + ["b"] * 120, neg_groups=["a"] * 105 + ["b"] * 110)
+
+
 def _run_seeds(item, ctx, seed):
     from score_analysis import BootstrapConfig
 
+    # a GroupScores object beyond the size at which 'dynamic' switches method: rows of bootstrap_metric must be
+    # the metric on exactly the samples bootstrap_sample(config) produces from the same RNG state
+    big = _large_group_source()
+    for method, strat in (("dynamic", "by_group"), ("dynamic", None), ("dynamic", "by_label"), ("single_pass", None)):
+        for sd in (seed, seed + 1):
+            for mname, kw in (("group_fnr", {"threshold": np.array([0.0, 0.5])}), ("fpr", {"threshold": 0.5})):
+                cfg = BootstrapConfig(nb_samples=3, sampling_method=method, stratified_sampling=strat, bootstrap_method="quantile")
+                case = {"source": "groupscores-230x215", "seed": sd, "method": method, "stratified": strat, "metric": mname}
+                ctx.state()
+                ctx.nontrivial()
+                st = np.random.get_state()
+                try:
+                    np.random.seed(sd)
+                    rows = np.asarray(big.bootstrap_metric(mname, config=cfg, **kw), dtype=float)
+                    np.random.seed(sd)
+                    samples = [big.bootstrap_sample(cfg) for _ in range(3)]
+                    manual = np.stack([np.asarray(getattr(type(s_), mname)(s_, **kw), dtype=float) for s_ in samples], axis=0)
+                    ctx.tick(2)
+                except Exception as e:  # noqa
+                    ctx.fail("unexpected-exception:seeded-large", case, observed=repr(e), expected="no exception")
+                    continue
+                finally:
+                    np.random.set_state(st)
+                if not _eq(rows, manual):
+                    ctx.fail("rows-are-metrics-of-sampler-output-in-order", case, observed=rows, expected=manual)
     for name, make in sources().items():
         src = make()
         specs = metric_specs(name)
